@@ -102,7 +102,6 @@ func ruleShapeCatalogue(c *Ctx, rule string) {
 // ---- C06.2 / C06.4 ids and addressing ----
 func ruleAddressing(c *Ctx, rule string) {
 	p := c.p
-	e := p.Origins()
 	var clientStreamSites, serverSites []*Envelope
 	for _, env := range p.Envelopes() {
 		root := p.fnKey(rootFn(env.Fn))
@@ -172,7 +171,20 @@ func ruleAddressing(c *Ctx, rule string) {
 			fmt.Sprintf("NewServerStream(src=%s, dst=%s): the stream's source is the request's destination and vice versa", p.lpath(a[3]), p.lpath(a[4])), p.ipos(ci.(ssa.Instruction)))
 		c.check(rule, "runStream:NewServerStream-id", p.sameValue(a[1], paramNamed(rs, "streamId")), "the server stream is created with the registered stream id", p.ipos(ci.(ssa.Instruction)))
 	}
-	// return route
+	ruleReturnRoute(c, rule, serverSites)
+}
+
+// ruleReturnRoute: the server's reply/reset return route is the request's route record minus its last hop.
+func ruleReturnRoute(c *Ctx, rule string, serverSites []*Envelope) {
+	p := c.p
+	e := p.Origins()
+	if serverSites == nil {
+		for _, env := range p.Envelopes() {
+			if p.sideOf(env.Fn) == "server" {
+				serverSites = append(serverSites, env)
+			}
+		}
+	}
 	nroute := 0
 	for _, env := range serverSites {
 		if env.HFields == nil || len(env.HFields["ProxyNext"].Stores) == 0 {
